@@ -153,6 +153,12 @@ func init() {
 					return nil
 				}
 				out = append(out, "="+s)
+			case "\x00v:", "\x00v:,", "\x00v:, ,", "\x00v: ", "\x00v:0", "\x00v:-1", "\x00v:99999999999999999999", "\x00v:x y", "\x00v:0x", "\x00v:1d2h3m4s5", "\x00v:*":
+				k, _, ok := strings.Cut(ls[l], "=")
+				if !ok {
+					return nil
+				}
+				out = append(out, k+"= "+strings.TrimPrefix(r, "\x00v:"))
 			case "\x00open":
 				out = append(out, ls[l]+" {")
 			case "\x00close":
@@ -165,7 +171,7 @@ func init() {
 		}})
 }
 
-var lineRepl = []string{"\x00drop", "\x00dup", "\x00lhs", "\x00rhs", "\x00open", "\x00close", "{", "}", "=", "= {", "[", "[realms", "[realms]", "[libdefaults]", "[domain_realm]", "x", " = y", "}}", "{{", "kdc", "X = {"}
+var lineRepl = []string{"\x00v:", "\x00v:,", "\x00v:, ,", "\x00v: ", "\x00v:0", "\x00v:-1", "\x00v:99999999999999999999", "\x00v:x y", "\x00v:0x", "\x00v:1d2h3m4s5", "\x00v:*", "\x00drop", "\x00dup", "\x00lhs", "\x00rhs", "\x00open", "\x00close", "{", "}", "=", "= {", "[", "[realms", "[realms]", "[libdefaults]", "[domain_realm]", "x", " = y", "}}", "{{", "kdc", "X = {"}
 
 func splitLines(b []byte) []string { return strings.Split(string(b), "\n") }
 
